@@ -60,6 +60,25 @@ BranchCalc(net, e) == BranchCalcR(net, HydReached(net), e)
 (* a load row is served *)
 LoadServedR(net, R, n) == n.svc /\ Jn(n.j) \in R
 
+(* ---- thermal connectivity: temperature-fixing feeders reach what the hydraulically calculated ---- *)
+(* branches connect (flow-prescribing elements included: fluid passes through them)                 *)
+TFixJunctions(net) ==
+    {n.j : n \in {n \in NERows(net, "ext_grid") : n.svc /\ n.typ \in TTypes}}
+    \cup {e.b : e \in {e \in ERows(net) : e.tbl \in CircPumpTables /\ e.svc}}
+ThermEdgesOf(net, R, e) ==
+    IF ~BranchCalcR(net, R, e) THEN {}
+    ELSE IF e.tbl = "pipe" THEN Both(PipeEnd(net, e, e.a), PipeEnd(net, e, e.b))
+    ELSE IF IsPipeValve(e) THEN Both(Jn(e.a), Vn(e.a, e.b))
+    ELSE IF e.tbl = "press_control" THEN {<<Jn(e.a), Jn(e.b)>>}
+    ELSE Both(Jn(e.a), Jn(e.b))
+ThermReached(net) ==
+    LET R == HydReached(net)
+    IN Closure({Jn(j) : j \in {j \in TFixJunctions(net) : Jn(j) \in R}}, UNION {ThermEdgesOf(net, R, e) : e \in ERows(net)})
+ThermSupplied(net) == {l \in JLabs(net) : Jn(l) \in ThermReached(net)}
+BranchThermCalc(net, e) ==
+    LET R == HydReached(net)  TR == ThermReached(net) IN
+    BranchCalcR(net, R, e) /\ (IF e.tbl = "pipe" THEN PipeEnd(net, e, e.a) \in TR ELSE Jn(e.a) \in TR)
+
 (* ---- independent characterisation of the least fixpoint (used to validate Closure) ---- *)
 AllNodes(net) == {Jn(l) : l \in JLabs(net)} \cup {ed[1] : ed \in HydEdges(net)} \cup {ed[2] : ed \in HydEdges(net)}
 IsClosed(S, Ed) == \A ed \in Ed : ed[1] \in S => ed[2] \in S
